@@ -751,6 +751,36 @@ def make_series_from_time_case(sp):
                 cmp=cmp_intended, meta=meta, nontrivial=impl.startswith('ok'))
 
 
+def make_series_from_time_ov_case(sp):
+    """round 2 (wave 6, seed C02-13): `TimeSeries(data, time=axis, sampling_interval=… | sampling_rate=… [, t0][, time_unit])` — an axis
+    handed over together with an OVERRIDING interval or rate.  The expectation is the one for the equivalent specification without `time=`
+    (start = the given one or the axis' own, as a time object; unit = the given one or the axis' own): the model line is the ordinary
+    `series` line of that specification, and every reported attribute (t0, interval, rate, the lazily built axis) is judged like there.
+    sp: axis (unit,t0,dt,n), interval | rate (tagged values), t0, unit ('none' | unit)"""
+    T = ts()
+    axis = call(lambda: real_axis(sp['axis']))
+    if isinstance(axis, str):
+        return None
+    au, at0, adt, an = sp['axis']
+    unit = {'none': au, 'default': 's'}.get(sp['unit'], sp['unit'])      # explicit None: the axis' unit; not given: the constructor's default, seconds
+    eq = {'n': an, 'ndim': 1, 't0': sp['t0'] if sp['t0'] is not None else ('T', au, int(at0)), 'interval': sp['interval'], 'rate': sp['rate'],
+          'duration': None, 'unit': unit}
+
+    def build_args(fresh):
+        kw = {'time': real_axis(sp['axis'])}
+        for k, name in (('t0', 't0'), ('interval', 'sampling_interval'), ('rate', 'sampling_rate')):
+            if sp[k] is not None:
+                kw[name] = real(sp[k])
+        if sp['unit'] != 'default':
+            kw['time_unit'] = None if sp['unit'] == 'none' else sp['unit']
+        return kw
+    impl = construct_seq(build_args, lambda kw: T.TimeSeries(series_data(an, 1), **kw), canon_series,
+                         'STO %r' % sorted((k, str(v)) for k, v in sp.items()))
+    line = 'C02 series %d %s %s %s %s %s' % (an, tok(eq['t0']), tok(eq['interval']), tok(eq['rate']), tok(None), unit)
+    return Case(line, impl, 'series/from-time/override-' + ('interval' if sp['interval'] is not None else 'rate'), cmp=cmp_intended,
+                meta={'kind': 'series_from_time_ov', 'spec': sp, 'equiv': eq}, nontrivial=impl.startswith('ok') and an >= 2)
+
+
 # ------------------------------------------------------------------ two live objects: built FROM one another, changed in place
 # A program on a store of real objects (ids = positions, like the Lean `Heap`): constructions that take an existing
 # object (UniformTime(axis[, unit][, length]), axis.copy(), TimeSeries(data, time=axis), series.time, series.copy())
@@ -1446,6 +1476,40 @@ def cases(rng, tier, seed):
         c = make_series_from_time_case(sp)
         if c:
             out.append(c)
+    # --- `time=` together with an overriding interval / rate (every reported attribute must describe the one new axis)
+    ov_fixed = [{'axis': ('s', 3 * 10**12, 5 * 10**11, 8), 'interval': ('i', 1), 'rate': None, 't0': None, 'unit': 'none'},
+                {'axis': ('s', 3 * 10**12, 5 * 10**11, 8), 'interval': ('T', 'ms', 25 * 10**10), 'rate': None, 't0': ('i', 0), 'unit': 's'},
+                {'axis': ('ms', 0, 2 * 10**9, 10), 'interval': None, 'rate': ('i', 4), 't0': None, 'unit': 'none'},
+                {'axis': ('ms', 0, 2 * 10**9, 10), 'interval': ('f', 0.25), 'rate': None, 't0': None, 'unit': 'us'}]
+    for i_ov in range(len(ov_fixed) + 120 * k):
+        if i_ov < len(ov_fixed):
+            sp = ov_fixed[i_ov]
+        else:
+            au = rng.choice(UNITS)
+            adt = max(1, int(gen_interval(rng, au)[1] * FACTOR[au]))
+            an = gen_len(rng, tier, cap=max(1, min(5000, LIM // 8 // adt)))
+            at0 = rng.choice([0, rng.randint(-LIM // 8, LIM // 8)])
+            su = rng.choice(['none', 'none', 'default', au, rng.choice(UNITS)])
+            unit = {'none': au, 'default': 's'}.get(su, su)
+            iv = rate = None
+            if rng.random() < 0.6:
+                iv = gen_interval(rng, unit)
+                if rng.random() < 0.3:
+                    iv = as_T(rng, unit, iv)
+                    if iv[2] < 1:
+                        iv = ('T', iv[1], 1)
+            else:
+                rate = gen_rate(rng)
+                if rng.random() < 0.3:
+                    rate = ('F', float(rate[1]))
+            dt = dt_ps_estimate(unit, iv, rate)
+            if dt is None or dt < 1 or dt * (an + 1) >= LIM // 8:
+                continue
+            sp = {'axis': (au, int(at0), int(adt), int(an)), 'interval': iv, 'rate': rate,
+                  't0': None if rng.random() < 0.6 else gen_t0(rng, unit, LIM // 8), 'unit': su}
+        c = make_series_from_time_ov_case(sp)
+        if c:
+            out.append(c)
     # --- two (and more) live objects built from one another, every in-place operator on either, all re-inspected
     heap_corpus = [
         {'axis': ('s', -10**12, 5 * 10**11, 8), 'prog': [('S', 0, 8, 's'), ('T', 0), ('S', 1, 8, 's'), ('I', 0, ('as', 'i', 3)), ('I', 0, ('mu', 2)), ('T', 1)]},
@@ -1693,6 +1757,8 @@ def check_case(c):
         r = judge_axis(o, unit, sp['t0'], ax['t0'] if ax else None, sp['interval'], rate_hz, inherit_dt, length,
                        duration, dur_inherit, n_div)
         return fail(*r) if r else None
+    if kind == 'series_from_time_ov':
+        kind, m = 'series', dict(m, spec=m['equiv'])
     if kind in ('series', 'series_from_time'):
         sp = m['spec']
         if kind == 'series':
@@ -1855,6 +1921,8 @@ def replay(d):
         c = make_series_case(m['spec'])
     elif kind == 'series_from_time':
         c = make_series_from_time_case(m['spec'])
+    elif kind == 'series_from_time_ov':
+        c = make_series_from_time_ov_case(m['spec'])
     elif kind == 'heap':
         c = make_heap_case(m['spec'])
     elif kind == 'heapparts':
